@@ -31,10 +31,11 @@ def gen_cases(tier, rng):
     thorough = tier == "thorough"
     # 1. exhaustive: every composition (+ inserted empty batches) of the 5-row NaN table, every aggregation,
     #    with and without an upstream filter that empties batches
-    for sizes in dfc.all_splits(len(T["nan-first"])):
+    for i, sizes in enumerate(dfc.all_splits(len(T["nan-first"]))):
         for a in ci.AGG_IDS:
             cases.append(mk(a, T["nan-first"], sizes))
-            cases.append(mk(a, T["nan-first"], sizes, filt=1))
+            if thorough or i % 2 == 0 or a in MEAN_FAM + VAR_FAM:
+                cases.append(mk(a, T["nan-first"], sizes, filt=1))
     # 2. exhaustive on the 6-row vanishing/re-entering key table for the keyed aggregations
     sp6 = dfc.all_splits(len(T["vanish"]))
     for i, sizes in enumerate(sp6):
@@ -278,9 +279,10 @@ def run(prop, tier, seed, replay=None):
         "distinct_nontrivial": len(nontriv),
         "rule": "aggregation cases = (aggregation id, table of [x,y,k] rows with NaNs, split into consecutive batches incl. empty ones, optional upstream filter x>t, dtype, example kind); quick: ALL compositions (+ one empty batch at start/each gap/end, empties everywhere, two leading empties) of the 5-row NaN table for all %d aggregations with and without filter, all compositions of the 6-row vanishing-key table for keyed aggregations, int-dtype and all-NaN tables, empty `example`, plus seeded random tables (<=12 rows); non-trivial = at least two batches and state carried across a boundary (>=2 non-empty batches, or an empty batch before a non-empty one); distinct by JSON of the case.  Elementwise expression cases (%d, oracle only) are counted in evaluations only." % (len(ci.AGG_IDS), len(ew_tasks)),
         "exhaustive": False,
-        "exhaustive_subspaces": ["all splits of table nan-first x all aggregations x filter in {None, 1}",
+        "exhaustive_subspaces": ["all splits of table nan-first x all aggregations (x filter x>1 on every 2nd split; every split for mean/var)",
                                  "all splits of table vanish x keyed aggregations", "all splits of table x-all-nan x all aggregations"],
-        "traces_validated_against_impl": len(items) - len({i for i in (s_af & s_rep)} | set(unenc)),
+        "traces_validated_against_impl": sum(1 for i in range(len(items)) if i not in unenc and i not in (
+            s_rep if variant.get("mean" if fam(i) in MEAN_FAM else "var" if fam(i) in VAR_FAM else "-") == "repaired" else s_af)),
         "disagreements_checked": nmis,
         "model_variant_matched": variant,
         "mismatch_as_found": len(m_af), "mismatch_repaired": len(m_rep), "unencodable": len(unenc),
